@@ -321,6 +321,12 @@ func flexSpareArgCase(c *ev.Case) {
 			x = n + rng.Intn(minInt(spare, 3))
 		}
 		y := rng.Range(x+1, n+spare)
+		if n > 0 && rng.Chance(1, 3) {
+			// the argument starts among the live elements and runs on into the spare part
+			x = rng.Intn(n)
+			y = rng.Range(n+1, n+spare)
+			c.Add("flex_sparearg_argument_straddles_len", 1)
+		}
 		k := y - x
 		arg := arena[x:y]
 		switch rng.Intn(3) {
